@@ -44,7 +44,8 @@ FORMS2 = [("call", "{f}(va, vb)"), ("infix", "va {f} vb"), ("bang", "{f} ! va, v
           ("sec1", "{f}(_, vb)(va)"), ("sec2", "{f}(va, _)(vb)"), ("chsec1", "(_ {f} vb)(va)"),
           ("chsec2", "(va {f} _)(vb)"), ("apply", "[va, vb] apply {f}"), ("of", "{f} of [va, vb]"),
           ("splat", "{f}(...[va, vb])"), ("juxta", "(va {f})(vb)"), ("rsec", "{f}(vb)(va)"),
-          ("opassign", "xx = va; xx {f}= vb; xx"), ("secsp1", "{f}(_, ...[vb])(va)"), ("secsp2", "{f}(...[va], _)(vb)")]
+          ("opassign", "xx = va; xx {f}= vb; xx"), ("secsp1", "{f}(_, ...[vb])(va)"), ("secsp2", "{f}(...[va], _)(vb)"),
+          ("opself", "xx = va; xx {f}= xx; xx")]
 FORMS1 = [("call", "{f}(va)"), ("bang", "{f} ! va"), ("splat", "{f}(...[va])"), ("dot", "va . {f}"),
           ("then", "va then {f}"), ("sec", "{f}(_)(va)")]
 FORMS3 = [("call", "{f}(va, vb, vc)"), ("bang", "{f} ! va, vb, vc"), ("splat", "{f}(...[va, vb, vc])"),
@@ -178,8 +179,10 @@ def group_case(cid, f, t, pool, forms):
         steps.append({"src": "%s(vb)" % f})
         roles.append("fb")
     for name, tpl in forms:
-        if name == "opassign" and f in NO_OPASSIGN:
+        if name in ("opassign", "opself") and f in NO_OPASSIGN:
             continue
+        if name == "opself" and (len(t) != 2 or t[0] != t[1]):
+            continue        # x f= x denotes f(a, a): only comparable with the other forms when both arguments are a
         steps.append({"src": tpl.format(f=f)})
         roles.append(name)
     return {"id": cid, "steps": steps}, roles
